@@ -128,4 +128,868 @@ Proof.
       destruct ((q <=? ak) || (q <=? av)); discriminate.
 Qed.
 
+
+(* ================================================================== *)
+(* 1. one hash equation: equal arguments, or a collision witness        *)
+(* ================================================================== *)
+
+Lemma col_leaf : forall a b c d, hl a b = hl c d -> (a = c /\ b = d) \/ Collision.
+Proof.
+  intros a b c d H.
+  destruct (Z.eq_dec a c) as [Eac|Nac]; [destruct (Z.eq_dec b d) as [Ebd|Nbd]|].
+  - left. auto.
+  - right. apply (ColLeaf a b c d); [congruence|exact H].
+  - right. apply (ColLeaf a b c d); [congruence|exact H].
+Qed.
+
+Lemma col_mid : forall a b c d, hm a b = hm c d -> (a = c /\ b = d) \/ Collision.
+Proof.
+  intros a b c d H.
+  destruct (Z.eq_dec a c) as [Eac|Nac]; [destruct (Z.eq_dec b d) as [Ebd|Nbd]|].
+  - left. auto.
+  - right. apply (ColMid a b c d); [congruence|exact H].
+  - right. apply (ColMid a b c d); [congruence|exact H].
+Qed.
+
+(* ================================================================== *)
+(* 2. binding: the root determines the tree                             *)
+(* ================================================================== *)
+
+(* holds for ALL trees, well-formed or not: a tree is a hash-consed term *)
+Theorem binding_any : forall t1 t2, root t1 = root t2 -> t1 = t2 \/ Collision.
+Proof.
+  induction t1 as [|k1 v1|l1 IHl r1 IHr]; intros [|k2 v2|l2 r2] H; simpl in H.
+  - left. reflexivity.
+  - right. apply (ColLeafZero k2 v2). symmetry. exact H.
+  - right. apply (ColMidZero (root l2) (root r2)). symmetry. exact H.
+  - right. apply (ColLeafZero k1 v1). exact H.
+  - destruct (col_leaf _ _ _ _ H) as [(Ek & Ev)|C]; [|right; exact C].
+    left. subst. reflexivity.
+  - right. apply (ColLeafMid k1 v1 (root l2) (root r2)). exact H.
+  - right. apply (ColMidZero (root l1) (root r1)). exact H.
+  - right. apply (ColLeafMid k2 v2 (root l1) (root r1)). symmetry. exact H.
+  - destruct (col_mid _ _ _ _ H) as [(El & Er)|C]; [|right; exact C].
+    destruct (IHl _ El) as [El'|C]; [|right; exact C].
+    destruct (IHr _ Er) as [Er'|C]; [|right; exact C].
+    left. subst. reflexivity.
+Qed.
+
+Theorem binding : forall t1 t2,
+  wf t1 -> wf t2 -> root t1 = root t2 -> t1 = t2 \/ Collision.
+Proof. intros t1 t2 _ _. apply binding_any. Qed.
+
+(* equal roots: same leaves (no well-formedness needed) *)
+Corollary binding_leaves : forall t1 t2,
+  root t1 = root t2 -> leaves t1 = leaves t2 \/ Collision.
+Proof.
+  intros t1 t2 H. destruct (binding_any _ _ H) as [E12|C]; [left; now subst|right; exact C].
+Qed.
+
+(* two lists that both insert successfully and give the same root are permutations of
+   each other.  (Success of add_all already forces pairwise different keys, so the
+   NoDup hypotheses a client has at hand are not needed.) *)
+Theorem add_all_root_binding : forall l1 l2 t1 t2,
+  add_all l1 = Ok t1 -> add_all l2 = Ok t2 -> root t1 = root t2 ->
+  Permutation l1 l2 \/ Collision.
+Proof.
+  intros l1 l2 t1 t2 H1 H2 Hr.
+  destruct (binding_any _ _ Hr) as [E12|C]; [|right; exact C].
+  left. subst t2.
+  destruct (add_all_wf _ _ _ H1) as (_ & P1). destruct (add_all_wf _ _ _ H2) as (_ & P2).
+  rewrite <- P1. exact P2.
+Qed.
+
+Corollary add_all_root_binding_nodup : forall l1 l2 t1 t2,
+  NoDup (map fst l1) -> NoDup (map fst l2) ->
+  add_all l1 = Ok t1 -> add_all l2 = Ok t2 -> root t1 = root t2 ->
+  Permutation l1 l2 \/ Collision.
+Proof. intros l1 l2 t1 t2 _ _. apply add_all_root_binding. Qed.
+
+(* the converse direction is Theory.add_all_perm_root; together: for lists that insert
+   successfully, equal roots <-> same multiset of leaves, up to a collision witness *)
+Corollary add_all_root_iff : forall l1 l2 t1 t2,
+  add_all l1 = Ok t1 -> add_all l2 = Ok t2 ->
+  (Permutation l1 l2 -> root t1 = root t2) /\
+  (root t1 = root t2 -> Permutation l1 l2 \/ Collision).
+Proof.
+  intros l1 l2 t1 t2 H1 H2. split.
+  - intros HP. eapply add_all_perm_root; eauto.
+  - apply add_all_root_binding; assumption.
+Qed.
+
+(* ================================================================== *)
+(* 3. soundness of existence proofs                                     *)
+(* ================================================================== *)
+
+(* the chain of hashes of a proof, started at the leaf hash of (k,v) at level lvl,
+   reaches the key of a subtree only if (k,v) is a leaf of it.  Any tree, any level,
+   any number of siblings (zero siblings included). *)
+Lemma up_ex_sound : forall ss t lvl k v,
+  up k lvl ss (hl k v) = root t -> In (k, v) (leaves t) \/ Collision.
+Proof.
+  induction ss as [|s ss IH]; intros t lvl k v H; simpl in H.
+  - destruct t as [|k' v'|l r]; simpl in H.
+    + right. apply (ColLeafZero k v). exact H.
+    + destruct (col_leaf _ _ _ _ H) as [(Ek & Ev)|C]; [|right; exact C].
+      left. subst. simpl. auto.
+    + right. apply (ColLeafMid k v (root l) (root r)). exact H.
+  - destruct t as [|k' v'|l r]; simpl in H.
+    + right. destruct (bit k lvl).
+      * apply (ColMidZero s (up k (S lvl) ss (hl k v))). exact H.
+      * apply (ColMidZero (up k (S lvl) ss (hl k v)) s). exact H.
+    + right. destruct (bit k lvl).
+      * apply (ColLeafMid k' v' s (up k (S lvl) ss (hl k v))). symmetry. exact H.
+      * apply (ColLeafMid k' v' (up k (S lvl) ss (hl k v)) s). symmetry. exact H.
+    + destruct (bit k lvl) eqn:Hb.
+      * destruct (col_mid _ _ _ _ H) as [(Es & Em)|C]; [|right; exact C].
+        destruct (IH _ _ _ _ Em) as [Hin|C]; [|right; exact C].
+        left. simpl. apply in_or_app. right. exact Hin.
+      * destruct (col_mid _ _ _ _ H) as [(Em & Es)|C]; [|right; exact C].
+        destruct (IH _ _ _ _ Em) as [Hin|C]; [|right; exact C].
+        left. simpl. apply in_or_app. left. exact Hin.
+Qed.
+
+Lemma verify_proof_true : forall r p k v,
+  verify_proof r p k v = true ->
+  exists mid, proof_mid p k v = Some mid /\ up k 0 (sibs p) mid = r.
+Proof.
+  intros r p k v H. unfold Model.verify_proof, Model.root_from_proof in H.
+  destruct (proof_mid p k v) as [mid|] eqn:Hm; [|discriminate].
+  exists mid. split; [reflexivity|]. apply Z.eqb_eq. exact H.
+Qed.
+
+(* an accepted proof of existence: (k,v) IS a leaf, or we hold a collision *)
+Theorem soundness_ex_any : forall t p k v,
+  verify_proof (root t) p k v = true -> ex p = true ->
+  In (k, v) (leaves t) \/ Collision.
+Proof.
+  intros t p k v H He. destruct (verify_proof_true _ _ _ _ H) as (mid & Hm & Hu).
+  unfold Model.proof_mid in Hm. rewrite He in Hm. inversion Hm; subst mid.
+  eapply up_ex_sound. exact Hu.
+Qed.
+
+Theorem soundness_ex : forall t p k v,
+  wf t -> verify_proof (root t) p k v = true -> ex p = true ->
+  In (k, v) (leaves t) \/ Collision.
+Proof. intros t p k v _. apply soundness_ex_any. Qed.
+
+(* ================================================================== *)
+(* 4. soundness of non-existence proofs                                 *)
+(* ================================================================== *)
+
+(* start values of a non-existence proof for k: the empty node, or a leaf with
+   another key (the rule "k = NodeAux.Key => error" of RootFromProof) *)
+Definition nonex_mid (k mid : Z) : Prop :=
+  mid = 0 \/ exists ak av, ak <> k /\ mid = hl ak av.
+
+Lemma up_nonex_sound : forall ss t lvl k mid,
+  wf_at lvl t -> nonex_mid k mid -> up k lvl ss mid = root t ->
+  ~ In k (keys t) \/ Collision.
+Proof.
+  induction ss as [|s ss IH]; intros t lvl k mid Hwf Hmid H; simpl in H.
+  - destruct Hmid as [Hz|(ak & av & Hne & Hmk)]; subst mid.
+    + destruct t as [|k' v'|l r]; simpl in H.
+      * left. intros [].
+      * right. apply (ColLeafZero k' v'). symmetry. exact H.
+      * right. apply (ColMidZero (root l) (root r)). symmetry. exact H.
+    + destruct t as [|k' v'|l r]; simpl in H.
+      * right. apply (ColLeafZero ak av). exact H.
+      * destruct (col_leaf _ _ _ _ H) as [(Ek & Ev)|C]; [|right; exact C].
+        left. unfold keys. simpl. intros [Hk|[]]. subst. contradiction.
+      * right. apply (ColLeafMid ak av (root l) (root r)). exact H.
+  - destruct t as [|k' v'|l r]; simpl in H.
+    + left. intros [].
+    + right. destruct (bit k lvl).
+      * apply (ColLeafMid k' v' s (up k (S lvl) ss mid)). symmetry. exact H.
+      * apply (ColLeafMid k' v' (up k (S lvl) ss mid) s). symmetry. exact H.
+    + destruct Hwf as (_ & _ & HL & HR & Hwl & Hwr).
+      destruct (bit k lvl) eqn:Hb.
+      * destruct (col_mid _ _ _ _ H) as [(Es & Em)|C]; [|right; exact C].
+        destruct (IH _ _ _ _ Hwr Hmid Em) as [Hn|C]; [|right; exact C].
+        left. rewrite keys_M. intros Hin. apply in_app_or in Hin. destruct Hin as [Hin|Hin].
+        -- apply HL in Hin. congruence.
+        -- contradiction.
+      * destruct (col_mid _ _ _ _ H) as [(Em & Es)|C]; [|right; exact C].
+        destruct (IH _ _ _ _ Hwl Hmid Em) as [Hn|C]; [|right; exact C].
+        left. rewrite keys_M. intros Hin. apply in_app_or in Hin. destruct Hin as [Hin|Hin].
+        -- contradiction.
+        -- apply HR in Hin. congruence.
+Qed.
+
+Lemma proof_mid_nonex : forall p k v mid,
+  ex p = false -> proof_mid p k v = Some mid -> nonex_mid k mid.
+Proof.
+  intros p k v mid He Hm. unfold Model.proof_mid in Hm. rewrite He in Hm.
+  destruct (aux p) as [(ak, av)|].
+  - destruct (Z.eqb_spec k ak) as [Heq|Hne]; [discriminate|].
+    inversion Hm. right. exists ak, av. split; [congruence|reflexivity].
+  - inversion Hm. left. reflexivity.
+Qed.
+
+(* an accepted proof of non-existence: k is NOT a key of the tree, or we hold a
+   collision.  Here well-formedness matters: every leaf sits on the path of its key. *)
+Theorem soundness_nonex : forall t p k v,
+  wf t -> verify_proof (root t) p k v = true -> ex p = false ->
+  ~ In k (keys t) \/ Collision.
+Proof.
+  intros t p k v Hwf H He. destruct (verify_proof_true _ _ _ _ H) as (mid & Hm & Hu).
+  eapply up_nonex_sound; [exact Hwf|eapply proof_mid_nonex; eassumption|exact Hu].
+Qed.
+
+(* both in one: what an accepted proof says about the tree *)
+Corollary soundness : forall t p k v,
+  wf t -> verify_proof (root t) p k v = true ->
+  (if ex p then In (k, v) (leaves t) else ~ In k (keys t)) \/ Collision.
+Proof.
+  intros t p k v Hwf H. destruct (ex p) eqn:He.
+  - eapply soundness_ex; eauto.
+  - eapply soundness_nonex; eauto.
+Qed.
+
+(* no tree has both kinds of accepted proof for one key *)
+Corollary no_double_proof : forall t p1 p2 k v1 v2,
+  wf t -> verify_proof (root t) p1 k v1 = true -> ex p1 = true ->
+  verify_proof (root t) p2 k v2 = true -> ex p2 = false -> Collision.
+Proof.
+  intros t p1 p2 k v1 v2 Hwf H1 E1 H2 E2.
+  destruct (soundness_ex _ _ _ _ Hwf H1 E1) as [Hin|C]; [|exact C].
+  destruct (soundness_nonex _ _ _ _ Hwf H2 E2) as [Hn|C]; [|exact C].
+  exfalso. apply Hn. apply in_keys. eauto.
+Qed.
+
+(* an accepted existence proof fixes the value: a well-formed tree has one leaf per key *)
+Corollary value_binding : forall t p1 p2 k v1 v2,
+  wf t -> verify_proof (root t) p1 k v1 = true -> ex p1 = true ->
+  verify_proof (root t) p2 k v2 = true -> ex p2 = true -> v1 = v2 \/ Collision.
+Proof.
+  intros t p1 p2 k v1 v2 Hwf H1 E1 H2 E2.
+  destruct (soundness_ex _ _ _ _ Hwf H1 E1) as [Hin1|C]; [|right; exact C].
+  destruct (soundness_ex _ _ _ _ Hwf H2 E2) as [Hin2|C]; [|right; exact C].
+  left. pose proof (wf_nodup_keys maxlev t 0 Hwf) as Hnd. unfold keys in Hnd.
+  revert Hnd Hin1 Hin2. generalize (leaves t). intros l.
+  induction l as [|(a, b) l IHl]; simpl; intros Hnd Hin1 Hin2; [contradiction|].
+  inversion Hnd as [|x xs Hnotin Hnd']; subst.
+  destruct Hin1 as [E1'|Hin1]; destruct Hin2 as [E2'|Hin2].
+  - congruence.
+  - exfalso. inversion E1'; subst. apply Hnotin. apply (in_map fst) in Hin2. exact Hin2.
+  - exfalso. inversion E2'; subst. apply Hnotin. apply (in_map fst) in Hin1. exact Hin1.
+  - apply IHl; assumption.
+Qed.
+
+(* ================================================================== *)
+(* 5. the exported entry points (what a verifier really calls)          *)
+(* ================================================================== *)
+
+(* VerifyProof(root, proof, k, v) = true with Existence set: the normalised pair is a
+   leaf.  Every restriction of the real function only removes accepted inputs: at most
+   240 siblings, all numbers below q; a Panic is not `Ok true`. *)
+Theorem mt_soundness_ex : forall q t p k v,
+  wf t -> mt_verify_proof hl hm q (root t) p k v = Ok true -> ex p = true ->
+  In (hash_of_z k, hash_of_z v) (leaves t) \/ Collision.
+Proof.
+  intros q t p k v Hwf H He. apply mt_verify_proof_true in H.
+  eapply soundness_ex; eauto.
+Qed.
+
+Theorem mt_soundness_nonex : forall q t p k v,
+  wf t -> mt_verify_proof hl hm q (root t) p k v = Ok true -> ex p = false ->
+  ~ In (hash_of_z k) (keys t) \/ Collision.
+Proof.
+  intros q t p k v Hwf H He. apply mt_verify_proof_true in H.
+  eapply soundness_nonex; eauto.
+Qed.
+
+(* for the numbers a caller normally passes (0 <= k,v, field below 2^256) no
+   normalisation happens *)
+Lemma mt_verify_args : forall q r p k v,
+  q <= 2 ^ 256 -> 0 <= k -> 0 <= v ->
+  mt_verify_proof hl hm q r p k v = Ok true -> hash_of_z k = k /\ hash_of_z v = v.
+Proof.
+  intros q r p k v Hq Hk Hv H. unfold mt_verify_proof in H.
+  destruct (mt_root_from_proof hl hm q p k v) as [r'| | |] eqn:Hr; try discriminate.
+  destruct (mt_root_from_proof_ok_args _ _ _ _ _ Hr) as (Hkq & Hvq & _).
+  split; apply hash_of_z_id; lia.
+Qed.
+
+Corollary mt_soundness_ex_plain : forall q t p k v,
+  q <= 2 ^ 256 -> 0 <= k -> 0 <= v ->
+  wf t -> mt_verify_proof hl hm q (root t) p k v = Ok true -> ex p = true ->
+  In (k, v) (leaves t) \/ Collision.
+Proof.
+  intros q t p k v Hq Hk Hv Hwf H He.
+  destruct (mt_verify_args _ _ _ _ _ Hq Hk Hv H) as (Ek & Ev).
+  pose proof (mt_soundness_ex _ _ _ _ _ Hwf H He) as S. rewrite Ek, Ev in S. exact S.
+Qed.
+
+Corollary mt_soundness_nonex_plain : forall q t p k v,
+  q <= 2 ^ 256 -> 0 <= k -> 0 <= v ->
+  wf t -> mt_verify_proof hl hm q (root t) p k v = Ok true -> ex p = false ->
+  ~ In k (keys t) \/ Collision.
+Proof.
+  intros q t p k v Hq Hk Hv Hwf H He.
+  destruct (mt_verify_args _ _ _ _ _ Hq Hk Hv H) as (Ek & Ev).
+  pose proof (mt_soundness_nonex _ _ _ _ _ Hwf H He) as S. rewrite Ek in S. exact S.
+Qed.
+
+(* ================================================================== *)
+(* 6. GenerateProof decides membership on well-formed trees             *)
+(* ================================================================== *)
+
+Lemma gen_ex_iff_at : forall t lvl k acc,
+  wf_at lvl t -> (ex (fst (gen t lvl k acc)) = true <-> In k (keys t)).
+Proof.
+  induction t as [|k' v'|l IHl r IHr]; intros lvl k acc Hwf; simpl.
+  - split; [discriminate|intros []].
+  - unfold keys. simpl. destruct (Z.eqb_spec k k') as [Heq|Hne]; simpl.
+    + split; auto.
+    + split; [discriminate|]. intros [Hk|[]]. congruence.
+  - destruct Hwf as (_ & _ & HL & HR & Hwl & Hwr). rewrite keys_M.
+    destruct (bit k lvl) eqn:Hb.
+    + rewrite (IHr _ k _ Hwr). split; intros Hin; [apply in_or_app; now right|].
+      apply in_app_or in Hin. destruct Hin as [Hin|Hin]; [|exact Hin].
+      apply HL in Hin. congruence.
+    + rewrite (IHl _ k _ Hwl). split; intros Hin; [apply in_or_app; now left|].
+      apply in_app_or in Hin. destruct Hin as [Hin|Hin]; [exact Hin|].
+      apply HR in Hin. congruence.
+Qed.
+
+(* the existence flag of the generated proof IS membership *)
+Theorem gen_ex_iff : forall t k,
+  wf t -> (ex (fst (gen t 0 k [])) = true <-> In k (keys t)).
+Proof. intros t k. apply gen_ex_iff_at. Qed.
+
+Corollary gen_nonex_iff : forall t k,
+  wf t -> (ex (fst (gen t 0 k [])) = false <-> ~ In k (keys t)).
+Proof.
+  intros t k Hwf. rewrite <- (gen_ex_iff t k Hwf).
+  destruct (ex (fst (gen t 0 k []))); split; intros H; congruence.
+Qed.
+
+Lemma gen_member_at : forall t lvl k v acc,
+  wf_at lvl t -> In (k, v) (leaves t) ->
+  exists p, gen t lvl k acc = (p, v) /\ ex p = true /\ aux p = None.
+Proof.
+  induction t as [|k' v'|l IHl r IHr]; intros lvl k v acc Hwf Hin; simpl in *.
+  - contradiction.
+  - destruct Hin as [Heq|[]]. inversion Heq; subst. rewrite Z.eqb_refl. eauto.
+  - destruct Hwf as (_ & _ & HL & HR & Hwl & Hwr).
+    apply in_app_or in Hin. destruct Hin as [Hin|Hin].
+    + assert (Hb : bit k lvl = false).
+      { apply HL. unfold keys. apply (in_map fst) in Hin. exact Hin. }
+      rewrite Hb. apply IHl; assumption.
+    + assert (Hb : bit k lvl = true).
+      { apply HR. unfold keys. apply (in_map fst) in Hin. exact Hin. }
+      rewrite Hb. apply IHr; assumption.
+Qed.
+
+(* every leaf of a well-formed tree gets an existence proof carrying its value, and
+   that proof verifies (with Theory.completeness_verify) *)
+Theorem gen_member : forall t k v,
+  wf t -> In (k, v) (leaves t) ->
+  exists p, gen t 0 k [] = (p, v) /\ ex p = true /\ aux p = None /\
+            verify_proof (root t) p k v = true.
+Proof.
+  intros t k v Hwf Hin.
+  destruct (gen_member_at t 0 k v [] Hwf Hin) as (p & Hg & He & Ha).
+  exists p. repeat split; auto.
+  pose proof (completeness_verify hl hm _ _ _ _ Hg) as Hc. rewrite He in Hc. exact Hc.
+Qed.
+
+(* every absent key gets a non-existence proof that verifies against any value *)
+Theorem gen_absent : forall t k v0,
+  wf t -> ~ In k (keys t) ->
+  exists p v, gen t 0 k [] = (p, v) /\ ex p = false /\
+              verify_proof (root t) p k v0 = true.
+Proof.
+  intros t k v0 Hwf Hn. destruct (gen t 0 k []) as (p, v) eqn:Hg.
+  assert (He : ex p = false).
+  { pose proof (proj2 (gen_nonex_iff t k Hwf) Hn) as Hx. rewrite Hg in Hx. exact Hx. }
+  exists p, v. repeat split; auto.
+  pose proof (completeness_verify hl hm _ _ _ _ Hg) as Hc. rewrite He in Hc.
+  unfold Model.verify_proof in *.
+  rewrite (root_from_proof_nonex_any_v hl hm p k v0 0 He). exact Hc.
+Qed.
+
+(* the level bound of GenerateProof's loop is never hit on a well-formed tree *)
+Lemma gen_b_wf_at : forall t lvl k acc,
+  wf_at lvl t -> (lvl < maxlev)%nat ->
+  gen_b hl hm (maxlev - lvl) t lvl k acc = Ok (gen t lvl k acc).
+Proof.
+  induction t as [|k' v'|l IHl r IHr]; intros lvl k acc Hwf Hlt;
+    destruct (maxlev - lvl)%nat as [|f] eqn:Hf; try lia; simpl.
+  - reflexivity.
+  - destruct (k =? k'); reflexivity.
+  - destruct Hwf as (Hlvl & _ & _ & _ & Hwl & Hwr).
+    assert (Ef : f = (maxlev - S lvl)%nat) by lia. subst f.
+    destruct (bit k lvl); [apply IHr|apply IHl]; auto; lia.
+Qed.
+
+Theorem gen_b_wf : forall t k,
+  wf t -> (1 <= maxlev)%nat -> gen_b hl hm maxlev t 0 k [] = Ok (gen t 0 k []).
+Proof.
+  intros t k Hwf Hml. pose proof (gen_b_wf_at t 0 k [] Hwf ltac:(lia)) as H.
+  rewrite Nat.sub_0_r in H. exact H.
+Qed.
+
+(* MerkleTree.GenerateProof on a well-formed tree: an error only for k >= q *)
+Corollary mt_gen_wf : forall q t k,
+  wf t -> (1 <= maxlev)%nat -> k < q ->
+  mt_gen hl hm maxlev q t k = Ok (gen t 0 (hash_of_z k) []).
+Proof.
+  intros q t k Hwf Hml Hk. unfold mt_gen.
+  destruct (Z.leb_spec q k); [lia|]. apply gen_b_wf; assumption.
+Qed.
+
+
+(* ================================================================== *)
+(* 7. uniqueness: the only accepted proof is the generated one           *)
+(* ================================================================== *)
+
+(* where GenerateProof's walk for k stops, and the siblings it passes *)
+Fixpoint term (t : tree) (lvl : nat) (k : Z) : tree :=
+  match t with
+  | M l r => if bit k lvl then term r (S lvl) k else term l (S lvl) k
+  | _ => t
+  end.
+Fixpoint psibs (t : tree) (lvl : nat) (k : Z) : list Z :=
+  match t with
+  | M l r => if bit k lvl then root l :: psibs r (S lvl) k else root r :: psibs l (S lvl) k
+  | _ => []
+  end.
+Definition gen_of_term (n : tree) (ss : list Z) (k : Z) : proof * Z :=
+  match n with
+  | L k' v' => if k =? k' then (mkproof true ss None, v')
+               else (mkproof false ss (Some (k', v')), v')
+  | _ => (mkproof false ss None, 0)
+  end.
+
+Lemma gen_term : forall t lvl k acc,
+  gen t lvl k acc = gen_of_term (term t lvl k) (rev acc ++ psibs t lvl k) k.
+Proof.
+  induction t as [|k' v'|l IHl r IHr]; intros lvl k acc; simpl.
+  - rewrite app_nil_r. reflexivity.
+  - rewrite app_nil_r. reflexivity.
+  - destruct (bit k lvl).
+    + rewrite IHr. simpl. rewrite <- app_assoc. reflexivity.
+    + rewrite IHl. simpl. rewrite <- app_assoc. reflexivity.
+Qed.
+
+Lemma term_not_M : forall t lvl k l r, term t lvl k <> M l r.
+Proof.
+  induction t as [|k' v'|l0 IHl r0 IHr]; intros lvl k l r; simpl; try discriminate.
+  destruct (bit k lvl); auto.
+Qed.
+
+(* a chain of hashes that starts at 0 or at a leaf hash and reaches the key of t has
+   exactly the siblings of k's path in t and starts at the node where that path ends *)
+Lemma up_unique : forall ss t lvl k mid,
+  (mid = 0 \/ exists a b, mid = hl a b) ->
+  up k lvl ss mid = root t ->
+  (ss = psibs t lvl k /\ mid = root (term t lvl k)) \/ Collision.
+Proof.
+  induction ss as [|s ss IH]; intros t lvl k mid Hmid H; simpl in H.
+  - destruct t as [|k' v'|l r]; simpl.
+    + left. auto.
+    + left. auto.
+    + right. simpl in H. destruct Hmid as [Hz|(a & b & Hab)]; subst mid.
+      * apply (ColMidZero (root l) (root r)). symmetry. exact H.
+      * apply (ColLeafMid a b (root l) (root r)). exact H.
+  - destruct t as [|k' v'|l r]; simpl in H.
+    + right. destruct (bit k lvl).
+      * apply (ColMidZero s (up k (S lvl) ss mid)). exact H.
+      * apply (ColMidZero (up k (S lvl) ss mid) s). exact H.
+    + right. destruct (bit k lvl).
+      * apply (ColLeafMid k' v' s (up k (S lvl) ss mid)). symmetry. exact H.
+      * apply (ColLeafMid k' v' (up k (S lvl) ss mid) s). symmetry. exact H.
+    + simpl. destruct (bit k lvl) eqn:Hb.
+      * destruct (col_mid _ _ _ _ H) as [(Es & Em)|C]; [|right; exact C].
+        destruct (IH _ _ _ _ Hmid Em) as [(Ess & Emid)|C]; [|right; exact C].
+        left. subst. auto.
+      * destruct (col_mid _ _ _ _ H) as [(Em & Es)|C]; [|right; exact C].
+        destruct (IH _ _ _ _ Hmid Em) as [(Ess & Emid)|C]; [|right; exact C].
+        left. subst. auto.
+Qed.
+
+(* Whatever proof VerifyProof accepts for key k against the root of t (ANY tree), it
+   has the existence flag and exactly the sibling list (zero siblings included, no
+   more, no fewer levels) of the proof GenerateProof builds for k; an existence proof
+   carries the stored value, a non-existence proof the same NodeAux.  The only
+   freedom left is what RootFromProof does not read: NodeAux of an existence proof and
+   the value argument of a non-existence proof. *)
+Theorem proof_unique : forall t p k v p' v',
+  verify_proof (root t) p k v = true -> gen t 0 k [] = (p', v') ->
+  (ex p = ex p' /\ sibs p = sibs p' /\ (if ex p then v = v' else aux p = aux p')) \/ Collision.
+Proof.
+  intros t p k v p' v' H Hg. destruct (verify_proof_true _ _ _ _ H) as (mid & Hm & Hu).
+  assert (Hleafish : mid = 0 \/ exists a b, mid = hl a b).
+  { unfold Model.proof_mid in Hm. destruct (ex p).
+    - inversion Hm. right. eauto.
+    - destruct (aux p) as [(ak, av)|].
+      + destruct (k =? ak); [discriminate|]. inversion Hm. right. eauto.
+      + inversion Hm. left. reflexivity. }
+  destruct (up_unique _ _ _ _ _ Hleafish Hu) as [(Ess & Emid)|C]; [|right; exact C].
+  rewrite gen_term in Hg. simpl in Hg.
+  unfold Model.proof_mid in Hm.
+  destruct (term t 0 k) as [|k' v0|l r] eqn:Ht.
+  - (* the path ends at an empty node *)
+    simpl in Hg, Emid. inversion Hg; subst p' v'; clear Hg. simpl.
+    destruct (ex p).
+    + right. inversion Hm. apply (ColLeafZero k v). congruence.
+    + destruct (aux p) as [(ak, av)|].
+      * destruct (k =? ak); [discriminate|]. right. inversion Hm.
+        apply (ColLeafZero ak av). congruence.
+      * left. auto.
+  - (* the path ends at a leaf *)
+    simpl in Hg, Emid. destruct (ex p).
+    + inversion Hm as [Hm']. rewrite Emid in Hm'.
+      destruct (col_leaf _ _ _ _ Hm') as [(Ek & Ev)|C]; [|right; exact C].
+      subst k' v0. rewrite Z.eqb_refl in Hg. inversion Hg; subst p' v'. simpl. left. auto.
+    + destruct (aux p) as [(ak, av)|].
+      * destruct (Z.eqb_spec k ak) as [Heq|Hne]; [discriminate|].
+        inversion Hm as [Hm']. rewrite Emid in Hm'.
+        destruct (col_leaf _ _ _ _ Hm') as [(Ek & Ev)|C]; [|right; exact C].
+        subst k' v0. destruct (Z.eqb_spec k ak) as [Heq|_]; [contradiction|].
+        inversion Hg; subst p' v'. simpl. left. auto.
+      * right. inversion Hm. apply (ColLeafZero k' v0). congruence.
+  - exfalso. exact (term_not_M _ _ _ _ _ Ht).
+Qed.
+
+(* ================================================================== *)
+(* 8. the exported entry points: invariants of Add, completeness         *)
+(* ================================================================== *)
+
+(* every number stored in the tree is a canonical field element *)
+Definition tree_in_field (q : Z) (t : tree) : Prop :=
+  forall k v, In (k, v) (leaves t) -> (0 <= k < q) /\ (0 <= v < q).
+
+Lemma tree_in_field_E : forall q, tree_in_field q E.
+Proof. intros q k v []. Qed.
+
+Lemma hash_of_z_nonneg : forall z, 0 <= hash_of_z z.
+Proof. intros z. unfold hash_of_z. apply Z.mod_pos_bound. lia. Qed.
+
+(* MerkleTree.Add succeeds exactly when the arguments pass both field checks and the
+   core insertion of the normalised pair succeeds *)
+Lemma mt_add_ok_inv : forall q t k v t',
+  mt_add maxlev q t k v = Ok t' <->
+  k < q /\ v < q /\ hash_of_z k < q /\ hash_of_z v < q /\
+  add t 0 (hash_of_z k) (hash_of_z v) = Ok t'.
+Proof.
+  intros q t k v t'. unfold mt_add.
+  destruct (Z.leb_spec q k) as [Hk|Hk]; [split; [discriminate|intros (A & _); lia]|].
+  destruct (Z.leb_spec q v) as [Hv|Hv]; [split; [discriminate|intros (_ & A & _); lia]|].
+  destruct (add t 0 (hash_of_z k) (hash_of_z v)) as [t1| | |] eqn:Ha; simpl.
+  - destruct (Z.leb_spec q (hash_of_z k)) as [Hk'|Hk']; simpl.
+    + split; [discriminate|intros (_ & _ & A & _); lia].
+    + destruct (Z.leb_spec q (hash_of_z v)) as [Hv'|Hv']; simpl.
+      * split; [discriminate|intros (_ & _ & _ & A & _); lia].
+      * split; [intros H; inversion H; subst; auto|].
+        intros (_ & _ & _ & _ & H). exact H.
+  - split; [discriminate|intros (_ & _ & _ & _ & H); discriminate].
+  - split; [discriminate|intros (_ & _ & _ & _ & H); discriminate].
+  - split; [discriminate|intros (_ & _ & _ & _ & H); discriminate].
+Qed.
+
+(* Add keeps the tree well formed and in the field, and adds exactly the normalised leaf *)
+Theorem mt_add_wf : forall q t k v t',
+  wf t -> tree_in_field q t -> mt_add maxlev q t k v = Ok t' ->
+  wf t' /\ tree_in_field q t' /\
+  Permutation (leaves t') ((hash_of_z k, hash_of_z v) :: leaves t).
+Proof.
+  intros q t k v t' Hwf Hf H. apply mt_add_ok_inv in H.
+  destruct H as (_ & _ & Hk & Hv & Ha).
+  destruct (wf_add maxlev _ _ _ _ Hwf Ha) as (Hwf' & HP).
+  repeat split; auto.
+  - apply (Permutation_in _ HP) in H. simpl in H. destruct H as [Heq|Hin].
+    + inversion Heq; subst. apply hash_of_z_nonneg.
+    + apply (Hf _ _ Hin).
+  - apply (Permutation_in _ HP) in H. simpl in H. destruct H as [Heq|Hin].
+    + inversion Heq; subst. exact Hk.
+    + apply (Hf _ _ Hin).
+  - apply (Permutation_in _ HP) in H. simpl in H. destruct H as [Heq|Hin].
+    + inversion Heq; subst. apply hash_of_z_nonneg.
+    + apply (Hf _ _ Hin).
+  - apply (Permutation_in _ HP) in H. simpl in H. destruct H as [Heq|Hin].
+    + inversion Heq; subst. exact Hv.
+    + apply (Hf _ _ Hin).
+Qed.
+
+(* the error classes of MerkleTree.Add on arguments that pass the field checks are
+   exactly those of the core insertion (Theory.add_exists_iff / add_maxlevel_iff) *)
+Lemma mt_add_err_inv : forall q t k v e,
+  k < q -> v < q ->
+  mt_add maxlev q t k v = Err e ->
+  add t 0 (hash_of_z k) (hash_of_z v) = Err e \/
+  (e = EHash /\ exists t', add t 0 (hash_of_z k) (hash_of_z v) = Ok t').
+Proof.
+  intros q t k v e Hk Hv H. unfold mt_add in H.
+  destruct (Z.leb_spec q k); [lia|]. destruct (Z.leb_spec q v); [lia|].
+  destruct (add t 0 (hash_of_z k) (hash_of_z v)) as [t1| | |] eqn:Ha; simpl in H;
+    try discriminate.
+  - right. destruct ((q <=? hash_of_z k) || (q <=? hash_of_z v)); [|discriminate].
+    inversion H. eauto.
+  - left. exact H.
+Qed.
+
+Lemma gen_sibs_psibs : forall t k, sibs (fst (gen t 0 k [])) = psibs t 0 k.
+Proof.
+  intros t k. rewrite gen_term. simpl.
+  destruct (term t 0 k) as [|k' v'|l r]; simpl; try reflexivity.
+  destruct (k =? k'); reflexivity.
+Qed.
+
+Lemma psibs_length : forall t lvl k,
+  wf_at lvl t -> (lvl < maxlev)%nat -> (lvl + List.length (psibs t lvl k) < maxlev)%nat.
+Proof.
+  induction t as [|k' v'|l IHl r IHr]; intros lvl k Hwf Hlt; simpl; try lia.
+  destruct Hwf as (Hlvl & _ & _ & _ & Hwl & Hwr).
+  destruct (bit k lvl); simpl.
+  - specialize (IHr (S lvl) k Hwr ltac:(lia)). lia.
+  - specialize (IHl (S lvl) k Hwl ltac:(lia)). lia.
+Qed.
+
+(* a generated proof of a well-formed tree has at most maxlev-1 siblings *)
+Corollary gen_depth : forall t k,
+  wf t -> (1 <= maxlev)%nat ->
+  (List.length (sibs (fst (gen t 0 k []))) <= maxlev - 1)%nat.
+Proof.
+  intros t k Hwf Hml. rewrite gen_sibs_psibs.
+  pose proof (psibs_length t 0 k Hwf ltac:(lia)). lia.
+Qed.
+
+Lemma root_range : forall q t,
+  0 < q -> (forall a b, 0 <= hl a b < q) -> (forall a b, 0 <= hm a b < q) -> 0 <= root t < q.
+Proof. intros q t Hq Hl Hm. destruct t; simpl; auto. lia. Qed.
+
+Lemma psibs_range : forall q t lvl k s,
+  0 < q -> (forall a b, 0 <= hl a b < q) -> (forall a b, 0 <= hm a b < q) ->
+  In s (psibs t lvl k) -> 0 <= s < q.
+Proof.
+  intros q t. induction t as [|k' v'|l IHl r IHr]; intros lvl k s Hq Hl Hm Hin; simpl in Hin;
+    try contradiction.
+  destruct (bit k lvl); destruct Hin as [Heq|Hin]; subst; eauto using root_range.
+Qed.
+
+Lemma mt_root_from_proof_intro : forall q p k v r,
+  k < q -> v < q ->
+  (ex p = true -> hash_of_z k < q /\ hash_of_z v < q) ->
+  (ex p = false -> forall ak av, aux p = Some (ak, av) -> ak < q /\ av < q) ->
+  (List.length (sibs p) <= notempties_bits)%nat ->
+  (forall s, In s (sibs p) -> s < q) ->
+  root_from_proof p (hash_of_z k) (hash_of_z v) = Some r ->
+  mt_root_from_proof hl hm q p k v = Ok r.
+Proof.
+  intros q p k v r Hk Hv Hex Haux Hlen Hs H.
+  unfold Model.root_from_proof, Model.proof_mid in H. unfold mt_root_from_proof.
+  destruct (Z.leb_spec q k); [lia|]. destruct (Z.leb_spec q v); [lia|].
+  assert (Hl : Nat.ltb notempties_bits (List.length (sibs p)) = false) by (apply Nat.ltb_ge; exact Hlen).
+  assert (He : existsb (fun s => q <=? s) (sibs p) = false).
+  { destruct (existsb (fun s => q <=? s) (sibs p)) eqn:E; [|reflexivity].
+    apply existsb_exists in E. destruct E as (s & Hin & Hle). apply Z.leb_le in Hle.
+    specialize (Hs s Hin). lia. }
+  destruct (ex p) eqn:Hexp.
+  - destruct (Hex eq_refl) as (Hk' & Hv').
+    destruct (Z.leb_spec q (hash_of_z k)); [lia|]. destruct (Z.leb_spec q (hash_of_z v)); [lia|].
+    simpl. rewrite Hl, He. inversion H. reflexivity.
+  - destruct (aux p) as [(ak, av)|] eqn:Ha.
+    + destruct (hash_of_z k =? ak); [discriminate|].
+      destruct (Haux eq_refl ak av eq_refl) as (Hak & Hav).
+      destruct (Z.leb_spec q ak); [lia|]. destruct (Z.leb_spec q av); [lia|].
+      simpl. rewrite Hl, He. inversion H. reflexivity.
+    + simpl. rewrite Hl, He. inversion H. reflexivity.
+Qed.
+
+(* COMPLETENESS OF THE REAL ENTRY POINTS.  If the hash functions map into the field
+   (true for Poseidon; a range condition, not injectivity), the field is at most 2^256
+   and the tree has at most 241 levels (so a proof has at most 240 siblings), then on
+   every tree built by Add, for EVERY key k < q (member or not, also negative),
+   GenerateProof succeeds and VerifyProof accepts its result against the root: with the
+   returned value for an existence proof, with 0 for a non-existence proof. *)
+Theorem mt_completeness : forall q t k,
+  0 < q -> q <= 2 ^ 256 ->
+  (forall a b, 0 <= hl a b < q) -> (forall a b, 0 <= hm a b < q) ->
+  (1 <= maxlev <= 241)%nat -> wf t -> tree_in_field q t -> k < q ->
+  exists p v,
+    mt_gen hl hm maxlev q t k = Ok (p, v) /\
+    mt_verify_proof hl hm q (root t) p k (if ex p then v else 0) = Ok true /\
+    (ex p = true <-> In (hash_of_z k) (keys t)) /\
+    (ex p = true -> In (hash_of_z k, v) (leaves t)).
+Proof.
+  intros q t k Hq Hq256 Hl Hm Hml Hwf Hf Hk.
+  destruct (gen t 0 (hash_of_z k) []) as (p, v) eqn:Hg. exists p, v.
+  split; [rewrite (mt_gen_wf q t k Hwf ltac:(lia) Hk), Hg; reflexivity|].
+  assert (Hiff : ex p = true <-> In (hash_of_z k) (keys t)).
+  { pose proof (gen_ex_iff t (hash_of_z k) Hwf) as G. rewrite Hg in G. exact G. }
+  assert (Hleaf : ex p = true -> In (hash_of_z k, v) (leaves t)).
+  { intros He. eapply gen_ex_leaf; eauto. }
+  split; [|split; assumption].
+  set (va := if ex p then v else 0).
+  assert (Hva : 0 <= va < q).
+  { unfold va. destruct (ex p) eqn:He; [|lia]. apply (Hf _ _ (Hleaf eq_refl)). }
+  assert (Hvaid : hash_of_z va = va) by (apply hash_of_z_id; lia).
+  pose proof (completeness hl hm _ _ _ _ Hg) as Hc. fold va in Hc.
+  assert (Hsibs : sibs p = psibs t 0 (hash_of_z k)).
+  { pose proof (gen_sibs_psibs t (hash_of_z k)) as G. rewrite Hg in G. exact G. }
+  assert (Hr : mt_root_from_proof hl hm q p k va = Ok (root t)).
+  { apply mt_root_from_proof_intro; try lia.
+    - intros He. split; [apply (Hf _ _ (Hleaf He))|rewrite Hvaid; lia].
+    - intros He ak av Ha. destruct (gen_aux_leaf hl hm _ _ _ _ _ _ _ _ Hg Ha) as (_ & _ & _ & Hin).
+      split; apply (Hf _ _ Hin).
+    - rewrite Hsibs. pose proof (psibs_length t 0 (hash_of_z k) Hwf ltac:(lia)) as Hlen.
+      unfold notempties_bits. lia.
+    - intros s Hin. rewrite Hsibs in Hin. eapply psibs_range; eauto.
+    - rewrite Hvaid. exact Hc. }
+  unfold mt_verify_proof. rewrite Hr, Z.eqb_refl. reflexivity.
+Qed.
+
+(* Well-formedness cannot be dropped from soundness_nonex, for ANY pair of hash
+   functions (also collision-free ones): in the ill-formed tree M (L 1 10) E the leaf
+   with key 1 hangs on the 0-side although bit 0 of its key is 1; the walk for key 1
+   goes right, meets the empty node, and that non-existence proof verifies. *)
+Theorem soundness_nonex_without_wf_refuted :
+  exists t p k v, verify_proof (root t) p k v = true /\ ex p = false /\ In k (keys t).
+Proof.
+  exists (M (L 1 10) E), (mkproof false [hl 1 10] None), 1, 0.
+  unfold Model.verify_proof, Model.root_from_proof, Model.proof_mid, keys. simpl.
+  rewrite Z.eqb_refl. auto.
+Qed.
+
 End Sound.
+
+(* ================================================================== *)
+(* Examples: the hypotheses are satisfiable, the conclusions are hit on  *)
+(* their first disjunct by a toy hash pair, and on their second by a     *)
+(* colliding one (so the Collision disjunct cannot be dropped)           *)
+(* ================================================================== *)
+Module SoundExamples.
+
+Definition thl (k v : Z) : Z := 2 * (k * 1000 + v) + 1.      (* odd, > 0 on k,v >= 0 *)
+Definition thm (l r : Z) : Z := 2 * (l * 1000003 + r) + 2.   (* even, > 0 on l,r >= 0 *)
+Definition toy_list : list (Z * Z) := [(1, 10); (2, 20); (5, 50); (13, 130); (29, 290)].
+Definition toy_t : tree :=
+  match add_all 8 toy_list with Ok t => t | _ => E end.
+
+Example toy_built : add_all 8 toy_list = Ok toy_t.
+Proof. vm_compute. reflexivity. Qed.
+Example toy_wf : wf 8 toy_t.
+Proof. exact (proj1 (add_all_wf 8 _ _ toy_built)). Qed.
+Example toy_depth : List.length (sibs (fst (gen thl thm toy_t 0 29 []))) = 5%nat.
+Proof. vm_compute. reflexivity. Qed.
+
+(* soundness_ex: hypotheses hold for the generated proof of the deep leaf (29,290),
+   and the conclusion holds through its first disjunct *)
+Example soundness_ex_nonvacuous :
+  let p := fst (gen thl thm toy_t 0 29 []) in
+  wf 8 toy_t /\ verify_proof thl thm (root thl thm toy_t) p 29 290 = true /\ ex p = true /\
+  In (29, 290) (leaves toy_t).
+Proof. split; [exact toy_wf|]. vm_compute. intuition (auto; try discriminate). Qed.
+
+(* soundness_nonex with NodeAux (21 = 10101b runs into the leaf 5 = 00101b) and with
+   an empty node (3 = 11b: all odd keys of the tree have bit 1 = 0) *)
+Example soundness_nonex_nonvacuous :
+  let p := fst (gen thl thm toy_t 0 21 []) in
+  let p' := fst (gen thl thm toy_t 0 3 []) in
+  verify_proof thl thm (root thl thm toy_t) p 21 0 = true /\ ex p = false /\ aux p = Some (5, 50) /\
+  verify_proof thl thm (root thl thm toy_t) p' 3 77 = true /\ ex p' = false /\ aux p' = None /\
+  ~ In 21 (keys toy_t) /\ ~ In 3 (keys toy_t).
+Proof. vm_compute. intuition (auto; try discriminate). Qed.
+
+(* the NodeAux rule: the same proof is refused for k = NodeAux.Key *)
+Example nodeaux_rule :
+  let p := fst (gen thl thm toy_t 0 21 []) in
+  root_from_proof thl thm p 5 50 = None /\ verify_proof thl thm (root thl thm toy_t) p 5 50 = false.
+Proof. vm_compute. auto. Qed.
+
+(* binding / add_all_root_binding: another insertion order, same tree, same root;
+   a different value gives a different root *)
+Example binding_nonvacuous :
+  exists t2, add_all 8 (rev toy_list) = Ok t2 /\ wf 8 t2 /\
+             root thl thm t2 = root thl thm toy_t /\ t2 = toy_t.
+Proof.
+  exists toy_t. split; [vm_compute; reflexivity|]. split; [exact toy_wf|]. auto.
+Qed.
+Example binding_distinguishes :
+  exists t2, add_all 8 [(1, 10); (2, 21); (5, 50); (13, 130); (29, 290)] = Ok t2 /\
+             root thl thm t2 <> root thl thm toy_t.
+Proof. eexists. split; [vm_compute; reflexivity|]. vm_compute. discriminate. Qed.
+
+(* gen_ex_iff / gen_member / gen_absent *)
+Example gen_ex_iff_nonvacuous :
+  ex (fst (gen thl thm toy_t 0 13 [])) = true /\ In 13 (keys toy_t) /\
+  ex (fst (gen thl thm toy_t 0 12 [])) = false /\ ~ In 12 (keys toy_t).
+Proof. vm_compute. intuition (auto; try discriminate). Qed.
+
+(* proof_unique: a tampered sibling list is rejected, the generated one accepted *)
+Example proof_unique_nonvacuous :
+  let p := fst (gen thl thm toy_t 0 29 []) in
+  verify_proof thl thm (root thl thm toy_t) p 29 290 = true /\
+  verify_proof thl thm (root thl thm toy_t) (mkproof true (sibs p ++ [0]) None) 29 290 = false /\
+  verify_proof thl thm (root thl thm toy_t) (mkproof true (removelast (sibs p)) None) 29 290 = false /\
+  verify_proof thl thm (root thl thm toy_t) (mkproof false (sibs p) None) 29 290 = false.
+Proof. vm_compute. auto. Qed.
+
+(* the exported entry points on the toy tree (q = 2^200 bounds every toy hash) *)
+Example mt_entry_points_nonvacuous :
+  let q := 2 ^ 200 in
+  exists p v, mt_gen thl thm 8 q toy_t 13 = Ok (p, v) /\ v = 130 /\
+              mt_verify_proof thl thm q (root thl thm toy_t) p 13 v = Ok true /\
+              mt_verify_proof thl thm q (root thl thm toy_t) p 13 131 = Ok false /\
+              mt_verify_proof thl thm q (root thl thm toy_t) p (-13) v = Ok true /\
+              mt_verify_proof thl thm q (root thl thm toy_t) p q v = Ok false.
+Proof. eexists. eexists. split; [vm_compute; reflexivity|]. vm_compute. auto 10. Qed.
+
+(* ---- the Collision disjunct is necessary ---- *)
+
+(* a constant leaf hash: every existence claim verifies against L 1 10 *)
+Definition chl (k v : Z) : Z := 7.
+Example soundness_ex_needs_collision :
+  let t := L 1 10 in let p := mkproof true [] None in
+  wf 8 t /\ verify_proof chl thm (root chl thm t) p 2 20 = true /\ ex p = true /\
+  ~ In (2, 20) (leaves t) /\ Collision chl thm.
+Proof.
+  simpl. split; [unfold wf; simpl; lia|]. split; [reflexivity|]. split; [reflexivity|]. split.
+  - intros [Heq|[]]. discriminate.
+  - apply (ColLeaf chl thm 1 10 2 20); [discriminate|reflexivity].
+Qed.
+
+(* a leaf hash with a zero: the leaf (1,10) is invisible, "key 1 is absent" verifies *)
+Definition zhl (k v : Z) : Z := 0.
+Example soundness_nonex_needs_collision :
+  let t := L 1 10 in let p := mkproof false [] None in
+  wf 8 t /\ verify_proof zhl thm (root zhl thm t) p 1 0 = true /\ ex p = false /\
+  In 1 (keys t) /\ Collision zhl thm.
+Proof.
+  simpl. split; [unfold wf; simpl; lia|]. split; [reflexivity|]. split; [reflexivity|]. split.
+  - unfold keys. simpl. auto.
+  - apply (ColLeafZero zhl thm 1 10). reflexivity.
+Qed.
+
+Example binding_needs_collision :
+  wf 8 (L 1 10) /\ wf 8 (L 2 20) /\ root chl thm (L 1 10) = root chl thm (L 2 20) /\
+  L 1 10 <> L 2 20 /\ Collision chl thm.
+Proof.
+  repeat split; try (unfold wf; simpl; lia); try discriminate.
+  apply (ColLeaf chl thm 1 10 2 20); [discriminate|reflexivity].
+Qed.
+
+End SoundExamples.
+
+(* everything above is closed under the global context (no axioms, no hypotheses
+   on the hash functions) *)
+Print Assumptions binding.
+Print Assumptions binding_any.
+Print Assumptions add_all_root_binding.
+Print Assumptions soundness_ex.
+Print Assumptions soundness_nonex.
+Print Assumptions mt_soundness_ex_plain.
+Print Assumptions mt_soundness_nonex_plain.
+Print Assumptions value_binding.
+Print Assumptions no_double_proof.
+Print Assumptions gen_ex_iff.
+Print Assumptions gen_member.
+Print Assumptions gen_absent.
+Print Assumptions mt_gen_wf.
+Print Assumptions proof_unique.
+Print Assumptions soundness_nonex_without_wf_refuted.
+Print Assumptions mt_add_wf.
+Print Assumptions mt_completeness.
